@@ -50,6 +50,10 @@ CHECKS = {
    text="ItemDef.tla defines what an input of a declared type admits (value itself / null / component-wise null) and, through FeelType!Coerce, what a decision with a declared output type returns. TLC enumerates item definition trees to depth 3 (eight simple types with and without allowed values, referenced, component, collection-of) and derives from each tree a conforming value and a violation at every position, plus a pool with one value of every FEEL kind; the harness writes the item definitions, a typed input with an echo decision and typed-output decisions as DMN XML, evaluates them, and TLC compares.",
    note="Missing/extra components, allowed values placed directly on a collection, and partially conforming collections (null element vs null list) are Unspec/alternatives. Trusts TLC, ItemDef.tla, the XML writer.",
    technique="TLA+ specification of type admission/coercion as oracle; type trees and per-position violations enumerated by TLC; evaluated by the real model evaluator through DMN XML"),
+ "C10": dict(cat="exploration", design="DESIGN.md §5 C10",
+   text="FeelNames.tla states the longest-bound-name rule over sequences of parts (words, the additional symbols . / - ' + *, numbers) and turns a part sequence into a FEEL tree; FeelEval gives it its value. For eight sets of bound names (prefix names, operator-joined combinations such as a-b next to a and b, multi-word names, a seven-part name, non-ASCII letters; every name bound to a distinct prime) TLC enumerates exhaustively every part sequence up to length 5 (quick) / 6 (thorough) that denotes an expression over the bound names; each is embedded in the positions where a name may occur (operand, if, list item, argument, context entry, for / every / filter sub-expressions), in scopes that introduce one more name (context entry, iteration variable, parameter), and with a local name shadowing an outer one with null; three spacings each.",
+   note="Introducing a local name that begins with an already bound name is not generated (ambiguous in FEEL). Trusts TLC, FeelNames/FeelEval, the harness's layout of parts.",
+   technique="TLA+ specification of longest-match name resolution as oracle; part sequences enumerated exhaustively by TLC; evaluated by the real parser and evaluator"),
 }
 NOT_YET = {}
 props = [json.loads(l) for l in open('/verif/properties.jsonl')]
